@@ -184,6 +184,8 @@ def judge(case):
                     if lb is None or lb[2] - lb[0] <= 0 or lb[3] - lb[1] <= 0:
                         continue  # a layer that collapsed to a point or a line paints nothing
                     e = (0.71 + 0.001 * cfg["upem"]) * max(1.0, norms[k]) + 1.0  # C05's allowance for a compiled, transformed outline
+                    if base is None and max(lb[2] - lb[0], lb[3] - lb[1]) <= e:
+                        continue  # no extents were drawn because the quantised bounds have no area: the layer is below the allowance itself
                     if base is None or lb[0] < base[0] - e or lb[1] < base[1] - e or lb[2] > base[2] + e or lb[3] > base[3] + e:
                         v.fail("base-bounds", "base glyph bounds do not cover a layer", {"source": i, "layer": k, "base": base, "layer_bounds": lb})
                         break
